@@ -20,6 +20,7 @@ mod git_commit_parser;
 mod pos_conv;
 
 mod c06;
+mod c07;
 mod c08;
 mod c09;
 mod c11;
